@@ -31,6 +31,8 @@ type Spec struct {
 	// HashOnly: when not nil, only these pieces get their true hash (the others a
 	// dummy one): for very long torrents of which only a few pieces are ever used
 	HashOnly []int
+	// UTF8Paths: file paths go into the path.utf-8 key (which storrent prefers), beside a harmless legacy path
+	UTF8Paths bool
 }
 
 func bstr(s string) string { return fmt.Sprintf("%d:%s", len(s), s) }
@@ -101,7 +103,11 @@ func Bytes(s Spec) ([]byte, []byte) {
 			if f.Pad {
 				info.WriteString("4:attr1:p")
 			}
-			fmt.Fprintf(&info, "6:lengthi%de4:pathl", f.Length)
+			if s.UTF8Paths {
+				fmt.Fprintf(&info, "6:lengthi%de4:pathl%se10:path.utf-8l", f.Length, bstr(fmt.Sprintf("legacy-%d", len(info.String()))))
+			} else {
+				fmt.Fprintf(&info, "6:lengthi%de4:pathl", f.Length)
+			}
 			for _, c := range f.Path {
 				info.WriteString(bstr(c))
 			}
